@@ -73,6 +73,7 @@ func runMutantChild(pc *PropCheck, repo, name string) int {
 	}
 	r := NewReport(pc.ID, "mutant", p)
 	pc.Run(r)
+	runGeneric(r, pc.ID)
 	for _, o := range r.Obs {
 		if !o.OK {
 			out.Failed = append(out.Failed, o.Key)
